@@ -22,7 +22,7 @@ def m_part(run, scr, nat):
     ub = decls.structs["UnitBuilder"]
     uf = decls.structs.lookup("Unit", "convert")
     pqn = [v for v, _ in decls.enums["PhysicalQuantity"]]
-    sizes = (2,) if run.tier == "quick" else (2, 3)
+    sizes = (2, 3) if run.tier == "quick" else (2, 3, 4)
     for k in sizes:
         sem = smt.RealSem(prefix="b%d" % k)
         mods = dict(models.STD_MODELS)
@@ -187,7 +187,7 @@ def m_part(run, scr, nat):
         "UnitIndex::get_unit_id is abstract: name j resolves to the declared unit j or is unknown; units have arbitrary physical quantity, "
         "finite positive ratio and finite difference; `sort_by` returns the elements in any order its comparator - executed from the MIR on every adjacent pair - accepts (ties in any order)",
     ]
-    run.bounds.append("M: best lists of 2 names (3 in the thorough tier)")
+    run.bounds.append("M: best lists of 2-3 names (up to 4 in the thorough tier)")
     ms.close()
 
 
